@@ -339,6 +339,31 @@ Section Machine.
   Definition transfer_gen (v mem : bool) (t : N) (qs : list oid) (files : items) (d : oid * bytes) : prog :=
     if v then vtransfer_prog mem t qs files d else transfer_prog mem t qs files d.
 
+  (* ---- one transfer() over SEVERAL directories that may share files (_do_transfer) ----
+     [ds] = the requested directory objects in the order the source iterates them, [forder] = the
+     requested files in the order the adds list them (both set iteration orders: oracle arguments).
+     status.new is computed once, after the existence query.  For each new directory, in order:
+     bound = new files it lists that no EARLIER directory listed (file_ids &= / -= entry_ids: a shared
+     file goes up with the FIRST directory listing it), added with check_exists=False; then the
+     directory object; the files no new directory lists come last. *)
+  Definition listed (d : oid * bytes) (it : oid * bytes) : bool := mem_oid (fst it) (kids (snd d)).
+  Fixpoint mt_loop (v mem : bool) (t : N) (nds : items) (newf : items) : prog :=
+    fun w =>
+      match nds with
+      | [] => match newf with [] => [] | _ => add_gen v false t newf w end
+      | d :: r =>
+          let bound := filter (listed d) newf in
+          let restf := filter (fun it => negb (listed d it)) newf in
+          let a := match bound with [] => [] | _ => add_gen v false t bound w end in
+          let w2 := run a w in
+          let t2 := t + n_ren a in
+          let b := if mem then mem_add_gen v t2 d w2 else add_gen v false t2 [d] w2 in
+          a ++ b ++ mt_loop v mem (t2 + (if mem then 2 * n_ren b else n_ren b)) r restf (run b w2)
+      end.
+  Definition mtransfer_prog (v mem : bool) (t : N) (qs : list oid) (ds forder : items) : prog :=
+    seq2 (heal_prog qs)
+         (fun w => mt_loop v mem t (filter (absent w) ds) (filter (absent w) forder) w).
+
   (* build(upload=True): every file first goes to a temp name at the store root *)
   Fixpoint upload_tmps (t : N) (files : items) : list astep :=
     match files with
@@ -415,7 +440,8 @@ Inductive scen : Type :=
 | ScSave (vf vd : bool) (t : N) (files dirs : list (oid * oid))
 | ScTransfer (v mem : bool) (t : N) (qs : list oid) (files : list (oid * oid)) (d : oid * oid)
 | ScUpload (v : bool) (t : N) (qs : list oid) (ups files : list (oid * oid)) (d : oid * oid)
-| ScAdd (v chk : bool) (t : N) (its : list (oid * oid)).
+| ScAdd (v chk : bool) (t : N) (its : list (oid * oid))
+| ScMTransfer (v mem : bool) (t : N) (qs : list oid) (ds forder : list (oid * oid)).
 
 Record tcase := mkT {
   t_kids : list (oid * list oid);
@@ -426,7 +452,7 @@ Record tcase := mkT {
   t_trace : list cstep;
   t_scen : scen }.
 
-Definition scen_prog (cpart : oid -> oid) (e : oid) (sc : scen) : cworld -> list cstep :=
+Definition scen_prog (K : oid -> list oid) (cpart : oid -> oid) (e : oid) (sc : scen) : cworld -> list cstep :=
   let H := fun b : oid => b in
   match sc with
   | ScNone => fun _ => []
@@ -434,6 +460,7 @@ Definition scen_prog (cpart : oid -> oid) (e : oid) (sc : scen) : cworld -> list
   | ScTransfer v mem t qs fs d => transfer_gen oid H e cpart v mem t qs fs d
   | ScUpload v t qs ups fs d => upload_prog oid H e cpart v t qs ups fs d
   | ScAdd v chk t its => add_gen oid H e cpart v chk t its
+  | ScMTransfer v mem t qs ds fo => mtransfer_prog oid H K e cpart v mem t qs ds fo
   end.
 
 (* [valid ; crash_inv_b at every prefix ; the store (objects, temp contents, valid rows) at every
@@ -448,6 +475,6 @@ Definition check_trace (c : tcase) : val :=
        VL (map (fun i => enc_world (nth (N.to_nat i) sts fin)) (t_cuts c));
        enc_bool (match t_scen c with
                  | ScNone => true
-                 | sc => steps_eqb (filter not_mkdir (scen_prog (part_tab (t_parts c)) (t_empty c) sc (t_w0 c)))
+                 | sc => steps_eqb (filter not_mkdir (scen_prog K (part_tab (t_parts c)) (t_empty c) sc (t_w0 c)))
                                    (filter not_mkdir (t_trace c))
                  end) ].
